@@ -5,6 +5,7 @@ package croncontroller
 var verifHarnesses = map[string]func(){
 	"VerifH_C01_L2_work":  VerifH_C01_L2_work,
 	"VerifH_C01_L2_work2": VerifH_C01_L2_work2,
+	"VerifH_C01_L2_workSlow": VerifH_C01_L2_workSlow,
 	"VerifH_C01_L2_workMulti": VerifH_C01_L2_workMulti,
 	"VerifH_C03_events":        VerifH_C03_events,
 	"VerifH_C03_twoEvents":     VerifH_C03_twoEvents,
